@@ -295,6 +295,20 @@ class Walker(ExprMixin):
         exc = st.exc
         if isinstance(exc, ast.Call):
             name = dotted(exc.func)
+            last = (name or "").split(".")[-1]
+            is_class = bool(last) and (last[0].isupper() or last in ("error",)) and not (self.mod.has(last) and isinstance(self.mod.top(last), ast.FunctionDef))
+            if name and not is_class:
+                # raise helper(...): a function / method that builds the exception object
+                v = self.ev(exc)
+                if v.excs:
+                    for e in sorted(v.excs):
+                        self.raise_(e, f"raise <{e} built by {last}> at {self.cv.label()}:{st.lineno}")
+                    return
+                if v.kinds is not None and "CELEvalError" in v.kinds:
+                    self.raise_("CELEvalError", f"raise <value> at {self.cv.label()}:{st.lineno}")
+                    return
+                self.eng.unresolved.add(f"raise {ast.unparse(exc)[:40]} in {self.cv.label()}")
+                return
             for a in exc.args:
                 self.ev(a)
             if name:
@@ -473,7 +487,11 @@ class Walker(ExprMixin):
             env[name] = Val(kinds=keep, calls=v.calls, elem=v.elem, excs=v.excs if pol else FS(), lit=v.lit, pos=v.pos, strs=v.strs, empty=v.empty)
             return True
         if isinstance(t, ast.Compare) and len(t.ops) == 1:
-            left, op, right = strip_cast(t.left), t.ops[0], self.display_of(t.comparators[0])
+            self._want_keys = isinstance(t.ops[0], (ast.In, ast.NotIn))
+            try:
+                left, op, right = strip_cast(t.left), t.ops[0], self.display_of(t.comparators[0])
+            finally:
+                self._want_keys = False
             if isinstance(left, ast.Name) and ("#len:" + left.id) in self.flag_tests:
                 left = self.flag_tests["#len:" + left.id]  # n = len(x.children); if n == 1: ...
             # x is None / x is not None
@@ -531,6 +549,9 @@ class Walker(ExprMixin):
             if nxt is node:
                 break
             node = nxt
+        if isinstance(node, ast.Dict) and all(k is not None for k in node.keys):
+            # `x in TABLE`: membership in the keys
+            node = ast.Tuple(elts=list(node.keys), ctx=ast.Load()) if getattr(self, "_want_keys", False) else node
         return node
 
     def narrow_tree(self, left, op, right, pol: bool, env: Dict[str, Val]) -> bool:
